@@ -3,6 +3,7 @@ CONSTANTS
   Bug = "ow_shortcut"
   Fmts <- FmtsAll
   CaseSet <- CasesQuick
+  MkCase <- MCMkCase
   MaxCorrupt = 1
   CorruptPos <- CorPosQuick
   CorruptVals <- AllBytes
